@@ -25,6 +25,10 @@ CHECKS = {
    text="Real ClusterRoleBackedValidator/Expand checked against an independent Kubernetes RuleAllows evaluator on the complete universe of concrete requests per (allow-list, request) pair (complete grid of single-token rules + generated pairs); real roles/definition/binding reconcilers over sim: any rejected request => no role write; system role rules bounded by owned/family CRDs + golden baseline + accepted requests; XRD roles name exactly the XRD's resources. Held on the generated inputs; exhaustive only for the single-token rule grid.",
    note="Trusted: the concrete-request evaluator (pinned by c18/oracle_test.go), golden/rbac_baseline.json, the independent image-reference parser; literal '*' resourceNames are not generated (documented quirk).",
    technique="runtime monitoring: differential check against a reference RBAC evaluator with per-pair exhaustive small-model enumeration", ref="3/C18"),
+ "C04": dict(cat="exploration",
+   text="Generated pipelines of deterministic function programs behind real gRPC servers (one per function revision, some v1beta1-only) driven by the real FunctionComposer -> FetchingFunctionRunner -> PackagedFunctionRunner chain inside the real XR reconciler; a reference interpreter (contract from the statement + the same programs + the store snapshot at pipeline start) predicts every RunFunctionRequest of later reconciles, compared with proto.Equal; also routing to the active revision after flips/endpoint moves, applied set = last output, results/conditions surfaced in order, connection closed after uninstall.",
+   note="Trusted: the reference interpreter (threading, requirement rounds, observed-state construction written from the statement); " + SIM + "; the first reconcile of an XR is not judged.",
+   technique="runtime monitoring: recorded gRPC requests against a reference interpreter of generated programs", ref="3/C04"),
  "C05": dict(cat="exploration",
    text="Full product (1..3 resources) of per-resource outcomes x explicit XR readiness x function conditions (incl. forged system types) x fatal variants through the real XR reconciler in Pipeline mode, full product of {ready, unready, invalid apply, render failure} in P&T mode, and claim reconciles (both syncers, fresh and stale XR reads) over scripted XR Ready sequences; stored status.conditions checked against one-directional implications from the statement. Exhaustive for the stated small sizes, sampled for claim sequences.",
    note="Trusted: " + SIM + "; scripted admission returns 422 for one kind; functions are scripted gRPC servers.",
